@@ -247,6 +247,16 @@ class _Runtime:
         return template % args
 
 
+    @staticmethod
+    def bjoin(sep, parts):
+        """`b"..".join(parts)`: the real join on real bytes, the byte-string model otherwise"""
+        parts = list(parts)
+        if all(isinstance(x, (bytes, bytearray, memoryview)) for x in parts):
+            return sep.join(parts)
+        from .models import bytesjoin_, SymBytes
+        return bytesjoin_([SymBytes.of(x) if not isinstance(x, (bytes, SymBytes)) else x for x in parts], sep)
+
+
 RUNTIME = _Runtime()
 
 
